@@ -397,8 +397,11 @@ func one(c *tree.Tree) <-chan tree.Trees {
 // number of workers (schedules themselves are C11's business).
 var workers = 1
 
+// decoys: also with a single worker (then one goroutine handles all four trees in turn)
+var decoys = false
+
 func feed(rn *core.N, c *tree.Tree) (<-chan tree.Trees, int) {
-	if workers <= 1 {
+	if workers <= 1 && !decoys {
 		return one(c), 1
 	}
 	ch := make(chan tree.Trees, 4)
@@ -468,7 +471,8 @@ func runCompare(rn, cn *core.N, tips, sc bool) string {
 			errs = append(errs, st.Err)
 			same = append(same, st.Sametree)
 			if st.Err != nil {
-				recs = append(recs, "err")
+				// what the record carries besides Err (since e41ab42 the loop does not run on other taxa)
+				recs = append(recs, fmt.Sprintf("err;%d;%d;%d;%v", st.Tree1, st.Common, st.Tree2, st.Sametree))
 			} else {
 				recs = append(recs, fmt.Sprintf("ok;%d;%d;%d;%v", st.Tree1, st.Common, st.Tree2, st.Sametree))
 			}
@@ -494,12 +498,18 @@ func runWeighted(rn, cn *core.N, tips, sc bool) string {
 		var errs []error
 		var same []bool
 		var recs []string
+		// a caller collects the records and reads them afterwards: a record must stay what it
+		// was when it was sent (its slices must not be reused for the next tree)
+		var all []tree.WeightedBipartitionStats
 		for st := range stats {
+			all = append(all, st)
+		}
+		for _, st := range all {
 			ids = append(ids, st.Id)
 			errs = append(errs, st.Err)
 			same = append(same, st.Sametree)
 			if st.Err != nil {
-				recs = append(recs, "err")
+				recs = append(recs, fmt.Sprintf("err;%v;%s;%s;%s", st.Sametree, core.RatList(st.Tree1), core.RatList(st.Tree2), core.RatList(st.Common)))
 			} else {
 				recs = append(recs, fmt.Sprintf("ok;%v;%s;%s;%s", st.Sametree, core.RatList(st.Tree1), core.RatList(st.Tree2), core.RatList(st.Common)))
 			}
@@ -521,6 +531,7 @@ func b01(b bool) string {
 func doCmp(c *core.Ctx, weighted, tips, sc bool, rn, cn *core.N) {
 	r2, c2 := rerooted(c.G, rn), rerooted(c.G, cn)
 	workers = []int{1, 1, 2, 4, 16}[c.G.Intn(5)]
+	decoys = weighted // one worker: decoys only where records hold slices (CompareWeighted)
 	emitCmp(c, weighted, tips, sc, rn, cn, r2, c2)
 }
 
@@ -774,6 +785,7 @@ func Replay(c *core.Ctx, lines []string) {
 				r2, c2 = parse(f[5]), parse(f[6])
 			}
 			workers = 1
+			decoys = len(f) >= 11 && f[0] == "C08.wcmp"
 			if len(f) >= 11 {
 				if w, err := strconv.Atoi(f[10]); err == nil && w >= 1 {
 					workers = w
